@@ -73,6 +73,35 @@ def subst(t, m):
     return t
 
 
+def swallowed(ctx, c):
+    """R09.6: "for every system the btor2 writer accepts": a failure of one of the writer's own steps (an expression it cannot express, an IO
+    error) must make the writer fail; turned into `None` / a default it makes the writer accept the system and leave something out"""
+    from . import c15
+    ctx.rule("R09.6", "every io::Result produced inside btor2::serialize is propagated (?, match, returned): none is turned into an Option / default with .ok(), unwrap_or*, let _ or a dropped statement")
+    n = 0
+    for path, fl in sorted(c.raw_fns.items() if hasattr(c, "raw_fns") else c.fns.items()):
+        if not path.startswith((S, "<" + S)) or "::tests::" in path:
+            continue
+        for f in fl:
+            per = {}
+            for x, parents in walk_parents(f["body"]):
+                if x.get("k") not in ("call", "mcall", "callv"):
+                    continue
+                t = str(x.get("ty") or "")
+                if not (t.startswith("core::result::Result<") and "std::io::error::Error" in t):
+                    continue
+                cal = (callee(x) or show(x.get("f", {}))).split("::")[-1]
+                n += 1
+                per[cal] = per.get(cal, 0) + 1
+                how, ok = c15.consumption(x, parents, f)
+                if how in ("unwrap", "expect"):
+                    ok = True          # aborting is not accepting: the failure is not turned into a successful write
+                ctx.inst("R09.6", "%s:%s:%s#%d" % (path.split("::")[-1], cal, how, per[cal]), ok, x["sp"],
+                         "%s: the Result of `%s` is %s: when this step fails the writer carries on and returns Ok, i.e. it accepts a system and writes text that lacks what this step should have written" % (path, show(x)[:80], how),
+                         sample={"fn": path, "call": show(x)[:60], "consumed_by": how})
+    ctx.floor("R09.6", "io::Result values produced in btor2::serialize", n, 30)
+
+
 def run(ctx):
     ctx.rule("T2", "builder contract (shared with C08)")
     ctx.rule("R09.1", "for every writable variant: reader-lowering(writer line of V) = V over the same children and attributes (positions agree)")
@@ -84,6 +113,7 @@ def run(ctx):
     t1 = T1(ctx, t0)
     builders.check_t2(ctx, t0)
     c = ctx.facts.lib("patronus")
+    swallowed(ctx, c)
     rrows = reader_rows(ctx)
     f = ctx.fn("patronus", S + "write_node")
     wp = param_ids(f) + [None] * 7              # write_node(writer, ctx, id, sort, expr, children, tail)
@@ -113,6 +143,8 @@ def run(ctx):
                 if v_[0] == "elem" and canon(v_[1]) == canon(p_children):
                     return "children[%d]" % v_[2]
             n_ = resolve(node)
+            if peel(n_).get("k") == "lit" and isinstance(peel(n_).get("v"), str):
+                return ("lit", peel(n_)["v"])          # a keyword handed to a shared helper as a string constant is literal text
             if is_local(n_, p_id):
                 return "id"
             if is_local(n_, p_sort):
